@@ -803,7 +803,7 @@ struct shm {
     uint64_t cases, calls, checked, findings, msgs_delivered, bytes_fed, segments;
     uint64_t outcome[NOUT];            /* first terminal result per case */
     int64_t max_growth_xcm, max_growth_all, max_peak_hs;
-    uint64_t hs_peer_ok, hs_xcm_ok, identity_skipped;
+    uint64_t hs_peer_ok, hs_xcm_ok, identity_skipped, bystander_checks;
     int nsig;
     struct { char sig[200]; uint64_t n; } sig[MAXSIG];
     int internal_err;
@@ -891,6 +891,15 @@ static int g_calibrating;
 static const struct kase *g_mutk;            /* hsmut: the mutation to apply */
 static int g_mut_applied;
 
+/* The harness-side OpenSSL peer lives in the same thread as the XCM endpoint and therefore shares OpenSSL's
+   per-thread error queue with it.  Every harness-side SSL call removes exactly the entries it added itself and
+   leaves what the library under test left there (that residue is what the bystander check is about); results
+   are judged with SSL_want(), never with SSL_get_error(), which looks at the shared queue. */
+#define HSSL(call) ({ int _m = ERR_set_mark(); __typeof__(call) _r = (call); \
+                      if (_m) ERR_pop_to_mark(); else ERR_clear_error(); _r; })
+/* XCM call on the bystander connection: not charged to the hostile case's allocation ledger */
+#define XB(call) ({ __typeof__(call) _r = (call); int _e = errno; S->calls++; errno = _e; _r; })
+
 #define XC(call) ({ l_track = 1; __typeof__(call) _r = (call); int _e = errno; l_track = 0; S->calls++; errno = _e; _r; })
 
 static struct xcm_attr_map *mk_attrs(void)
@@ -929,6 +938,8 @@ static int raw_send_all(const unsigned char *b, size_t n)
     S->bytes_fed += n;
     return 0;
 }
+
+static int g_setup_done;
 
 static void process_setup(void)
 {
@@ -988,6 +999,7 @@ static void process_setup(void)
         SSL_CTX_set_verify(g_pctx, SSL_VERIFY_PEER, NULL);
         SSL_CTX_set_num_tickets(g_pctx, 0);     /* session tickets carry the wall-clock time */
     }
+    g_setup_done = 1;
 }
 
 /* raw TCP connection + XCM connection socket; TLS handshake not driven here */
@@ -1041,15 +1053,17 @@ static void close_conn(void)
     }
     close_raw();
     if (g_pssl) {
-        SSL_free(g_pssl);       /* frees the BIOs */
+        HSSL((SSL_free(g_pssl), 0));       /* frees the BIOs */
         g_pssl = NULL;
     }
 }
 
 /* ---- harness-side TLS peer ------------------------------------------------------------ */
+static int g_xfailed;            /* the XCM side has reported a hard failure of this connection */
+
 static void peer_new(void)
 {
-    g_pssl = SSL_new(g_pctx);
+    g_pssl = HSSL(SSL_new(g_pctx));
     g_prb = BIO_new(BIO_s_mem());
     g_pwb = BIO_new(BIO_s_mem());
     BIO_set_mem_eof_return(g_prb, -1);
@@ -1058,7 +1072,7 @@ static void peer_new(void)
         SSL_set_connect_state(g_pssl);
     else
         SSL_set_accept_state(g_pssl);
-    g_pdone = g_pfailed = g_cutoff = 0;
+    g_pdone = g_pfailed = g_cutoff = g_xfailed = 0;
     g_nflights = 0;
     g_mut_applied = 0;
 }
@@ -1167,17 +1181,16 @@ static void peer_flush(int is_app)
 
 static void peer_handshake_step(void)
 {
-    if (g_pdone || g_pfailed)
+    /* once the XCM side has given up there is nothing left to negotiate, and OpenSSL's handshake state machine
+       begins with ERR_clear_error(): stepping the harness peer again would wipe whatever the library under test
+       left in the thread's error queue - exactly the residue the bystander check looks for */
+    if (g_pdone || g_pfailed || g_xfailed)
         return;
-    ERR_clear_error();
-    int r = SSL_do_handshake(g_pssl);
+    int r = HSSL(SSL_do_handshake(g_pssl));
     if (r == 1)
         g_pdone = 1;
-    else {
-        int e = SSL_get_error(g_pssl, r);
-        if (e != SSL_ERROR_WANT_READ && e != SSL_ERROR_WANT_WRITE)
-            g_pfailed = 1;
-    }
+    else if (!SSL_want_read(g_pssl) && !SSL_want_write(g_pssl))
+        g_pfailed = 1;
 }
 
 /* ---- observations -------------------------------------------------------------------- */
@@ -1348,10 +1361,12 @@ static int tls_handshake(int with_drain)
         if (g_verbose)
             vlog("handshake round %d: peer %s, xcm_finish -> %d %s", it, g_pdone ? "done" : g_pfailed ? "failed" : "busy",
                  xrc, xrc < 0 ? errname(xe) : "");
+        if (xrc < 0 && xe != EAGAIN)
+            g_xfailed = 1;
         size_t in = peer_pump_in();
         if (g_pdone && xrc == 0 && in == 0)
             break;
-        if (xrc < 0 && xe != EAGAIN && in == 0 && (g_pfailed || g_pdone || g_cutoff))
+        if (g_xfailed && in == 0)
             break;
         if (g_raw < 0)
             break;
@@ -1359,8 +1374,7 @@ static int tls_handshake(int with_drain)
     /* let the peer digest what the XCM side sent with its last flight (session tickets) */
     if (g_pdone && !g_pfailed) {
         unsigned char t[64];
-        ERR_clear_error();
-        (void)SSL_read(g_pssl, t, sizeof t);
+        (void)HSSL(SSL_read(g_pssl, t, sizeof t));
         peer_flush(0);
     }
     return g_pdone && xrc == 0 ? 0 : -1;
@@ -1374,10 +1388,9 @@ static void feed_plain(const unsigned char *b, size_t n)
     if (g_pssl) {
         size_t off = 0;
         while (off < n) {
-            ERR_clear_error();
-            int w = SSL_write(g_pssl, b + off, (int)(n - off > 1 << 30 ? 1 << 30 : n - off));
+            int w = HSSL(SSL_write(g_pssl, b + off, (int)(n - off > 1 << 30 ? 1 << 30 : n - off)));
             if (w <= 0) {
-                internal("peer SSL_write failed (%d)", SSL_get_error(g_pssl, w));
+                internal("peer SSL_write failed (%d)", w);
                 return;
             }
             off += (size_t)w;
@@ -1393,7 +1406,7 @@ static void do_end(int end)
         return;
     peer_pump_in();     /* nothing unread at the closing side: the close is orderly at the TCP level */
     if (end == END_SHUTDOWN && g_pssl) {
-        SSL_shutdown(g_pssl);
+        HSSL(SSL_shutdown(g_pssl));
         peer_flush(0);
     }
     close_raw();
@@ -1584,8 +1597,7 @@ static void run_stream_case(const struct kase *k)
     } else if (k->segkind == SEG_CTCUT || k->segkind == SEG_CTTRICKLE) {
         /* one record, the ciphertext fragmented */
         static unsigned char ct[17000];
-        ERR_clear_error();
-        int w = SSL_write(g_pssl, g_sb, (int)g_sn);
+        int w = HSSL(SSL_write(g_pssl, g_sb, (int)g_sn));
         int cn = w > 0 ? BIO_read(g_pwb, ct, sizeof ct) : -1;
         if (cn != (int)g_sn + 22) {
             internal("ciphertext of %zu plaintext bytes has %d bytes, expected %zu", g_sn, cn, g_sn + 22);
@@ -1731,8 +1743,7 @@ static void run_hsmut_case(const struct kase *k)
         g_hs_peak_ref = l_peak_tot;
     drain();
     if (g_pdone && !g_pfailed && !g_cutoff && g_raw >= 0) {
-        ERR_clear_error();
-        int w = SSL_write(g_pssl, HS_APP, sizeof HS_APP);
+        int w = HSSL(SSL_write(g_pssl, HS_APP, sizeof HS_APP));
         if (w == (int)sizeof HS_APP) {
             g_fed = sizeof HS_APP;
             peer_flush(1);
@@ -1759,6 +1770,193 @@ static void run_hsmut_case(const struct kase *k)
     close_conn();
 }
 
+/* ====================================================================================== */
+/* the bystander: a second, healthy, idle TLS/BTLS connection of the same thread            */
+/* ====================================================================================== */
+/* Hostile input on connection A must not harm the receiver's OTHER connections.  B is established once per
+   process (before any case, outside every per-case heap measurement: its XCM calls are not charged to the
+   ledger) between an XCM endpoint of the same kind as A's and a second harness-side OpenSSL peer, and is left
+   idle.  After every case on A - whatever A reported - (1) one idle xcm_receive(B) must say EAGAIN, (2) one
+   valid message (btls: bytes) sent by B's peer must be delivered exactly, (3) xcm_send on B must be accepted and
+   arrive at the peer.  After a violation B is torn down, the thread's OpenSSL error queue is emptied (so that one
+   defect does not cascade into every later case) and B is established anew. */
+static struct {
+    struct xcm_socket *conn;
+    int raw;
+    SSL *ssl;
+    BIO *rb, *wb;
+    unsigned seq;
+    int ok;
+} B = { .raw = -1 };
+
+static void b_destroy(void)
+{
+    if (B.conn)
+        XB(xcm_close(B.conn));
+    if (B.raw >= 0)
+        close(B.raw);
+    if (B.ssl)
+        HSSL((SSL_free(B.ssl), 0));
+    memset(&B, 0, sizeof B);
+    B.raw = -1;
+}
+
+/* uses A's machinery (globals) to set the connection up and then moves it aside */
+static int b_establish(void)
+{
+    int cal = g_calibrating;
+    g_mutk = NULL;
+    g_calibrating = 0;
+    if (open_conn() < 0) {
+        g_calibrating = cal;
+        return -1;
+    }
+    peer_new();
+    int rc = tls_handshake(0);
+    g_calibrating = cal;
+    if (rc < 0) {
+        close_conn();
+        return -1;
+    }
+    B.conn = g_conn;
+    B.raw = g_raw;
+    B.ssl = g_pssl;
+    B.rb = g_prb;
+    B.wb = g_pwb;
+    B.ok = 1;
+    g_conn = NULL;
+    g_raw = -1;
+    g_pssl = NULL;
+    g_prb = g_pwb = NULL;
+    g_xfd = -1;
+    return 0;
+}
+
+static void b_flush(void)
+{
+    unsigned char b[4096];
+    int r;
+    while ((r = BIO_read(B.wb, b, sizeof b)) > 0)
+        send(B.raw, b, (size_t)r, MSG_NOSIGNAL);
+}
+
+static void b_pump_in(void)
+{
+    unsigned char b[4096];
+    ssize_t r;
+    while ((r = recv(B.raw, b, sizeof b, 0)) > 0)
+        BIO_write(B.rb, b, (int)r);
+}
+
+static void setup_all(void)
+{
+    process_setup();
+    if (C.tls && !B.ok && b_establish() < 0)
+        internal("the bystander connection could not be established");
+}
+
+static void bystander_check(void)
+{
+    char sig[200];
+    const char *what = NULL;
+    char detail[300] = "";
+    if (!C.tls || !B.ok)
+        return;
+    S->bystander_checks++;
+    char qs[160] = "empty";
+    unsigned long qe = ERR_peek_error();
+    if (qe)
+        ERR_error_string_n(qe, qs, sizeof qs);
+    vlog("bystander: OpenSSL error queue of the thread before the idle receive: %s", qs);
+    /* (1) idle receive */
+    errno = 0;
+    int rc = XB(xcm_receive(B.conn, g_rbuf, RCAP));
+    int e = errno;
+    vlog("bystander: idle xcm_receive -> %d %s", rc, rc < 0 ? errname(e) : "");
+    S->checked++;
+    if (!(rc < 0 && e == EAGAIN)) {
+        static char w[40];
+        snprintf(w, sizeof w, "receive-%s", rc > 0 ? "data" : rc == 0 ? "closed" : errname(e));
+        what = w;
+        snprintf(detail, sizeof detail, "the idle xcm_receive on the bystander returned %d %s instead of -1/EAGAIN", rc,
+                 rc < 0 ? errname(e) : "");
+    }
+    /* (2) one valid message from B's peer */
+    unsigned char msg[7] = { 0, 0, 0, 3, 'B', (unsigned char)(B.seq >> 8), (unsigned char)B.seq };
+    B.seq++;
+    const unsigned char *pay = C.bytestream ? msg : msg + 4;
+    int paylen = C.bytestream ? 7 : 3;
+    if (!what) {
+        int w = HSSL(SSL_write(B.ssl, msg, sizeof msg));
+        b_flush();
+        int got = 0;
+        unsigned char acc[16];
+        for (int i = 0; i < 6 && got < paylen && w == (int)sizeof msg; i++) {
+            errno = 0;
+            rc = XB(xcm_receive(B.conn, g_rbuf, RCAP));
+            e = errno;
+            if (rc > 0) {
+                if (got + rc > (int)sizeof acc)
+                    rc = (int)sizeof acc - got;
+                memcpy(acc + got, g_rbuf, (size_t)rc);
+                got += rc;
+                if (!C.bytestream)
+                    break;
+            } else if (!(rc < 0 && e == EAGAIN))
+                break;
+        }
+        S->checked++;
+        if (w != (int)sizeof msg)
+            internal("bystander peer SSL_write failed (%d)", w);
+        else if (got != paylen || memcmp(acc, pay, (size_t)paylen)) {
+            what = "not-delivered";
+            snprintf(detail, sizeof detail, "the bystander's peer sent one valid %s of %d bytes; xcm_receive delivered %d "
+                     "byte(s), last result %d %s", C.bytestream ? "chunk" : "message", paylen, got, rc,
+                     rc < 0 ? errname(e) : "");
+        }
+    }
+    /* (3) a send on B */
+    if (!what) {
+        unsigned char out[2] = { 's', (unsigned char)B.seq };
+        errno = 0;
+        rc = XB(xcm_send(B.conn, out, 2));
+        e = errno;
+        S->checked++;
+        if (rc < 0) {
+            what = "send-refused";
+            snprintf(detail, sizeof detail, "xcm_send on the bystander returned -1 %s", errname(e));
+        } else {
+            XB(xcm_finish(B.conn));
+            unsigned char in[16];
+            int want = C.bytestream ? 2 : 6, got = 0;
+            for (int i = 0; i < 4 && got < want; i++) {
+                b_pump_in();
+                int r = HSSL(SSL_read(B.ssl, in + got, (int)sizeof in - got));
+                if (r > 0)
+                    got += r;
+                else
+                    XB(xcm_finish(B.conn));
+            }
+            S->checked++;
+            if (got != want || memcmp(in + want - 2, out, 2)) {
+                what = "send-not-arrived";
+                snprintf(detail, sizeof detail, "xcm_send on the bystander was accepted but its %d bytes did not reach the "
+                         "peer (%d arrived)", want, got);
+            }
+        }
+    }
+    if (!what)
+        return;
+    snprintf(sig, sizeof sig, "C07/bystander-connection-harmed/%s/after=%s/tp=%s", what, fam_name[C.fam], C.tp);
+    finding(sig, "%s; the bystander is a second, healthy, idle %s connection of the same thread, established before the "
+            "hostile case on the other connection; OpenSSL error queue of the thread when that case had ended: %s", detail, C.tp,
+            qs);
+    b_destroy();
+    ERR_clear_error();          /* harness hygiene after the verdict: do not let the defect cascade */
+    if (b_establish() < 0)
+        internal("the bystander connection could not be re-established");
+}
+
 static void run_case(const struct kase *k)
 {
     case_reset();
@@ -1773,6 +1971,7 @@ static void run_case(const struct kase *k)
     else
         run_stream_case(k);
     S->cases++;
+    bystander_check();
 }
 
 /* ====================================================================================== */
@@ -1902,7 +2101,7 @@ static void print_stats(uint64_t a, uint64_t b)
           "\"findings\":%llu,\"msgs_delivered\":%llu,\"bytes_fed\":%llu,\"segments\":%llu,"
           "\"out_eproto\":%llu,\"out_closed\":%llu,\"out_eagain\":%llu,\"out_other\":%llu,\"out_delivered\":%llu,"
           "\"max_growth_xcm\":%lld,\"max_growth_all\":%lld,\"max_peak_hs\":%lld,\"hs_peak_ref\":%lld,"
-          "\"hs_peer_ok\":%llu,\"hs_xcm_ok\":%llu,\"identity_skipped\":%llu,\"flights\":[%d,%d,%d,%d,%d,%d],"
+          "\"hs_peer_ok\":%llu,\"hs_xcm_ok\":%llu,\"identity_skipped\":%llu,\"bystander_checks\":%llu,\"flights\":[%d,%d,%d,%d,%d,%d],"
           "\"internal\":%d,\"internal_text\":\"%s\",\"sigs\":{",
           cf, (unsigned long long)a, (unsigned long long)b, (unsigned long long)S->cases,
           (unsigned long long)S->calls, (unsigned long long)S->checked, (unsigned long long)S->findings,
@@ -1911,7 +2110,8 @@ static void print_stats(uint64_t a, uint64_t b)
           (unsigned long long)S->outcome[O_EAGAIN], (unsigned long long)S->outcome[O_OTHER],
           (unsigned long long)S->outcome[O_DELIVERED], (long long)S->max_growth_xcm, (long long)S->max_growth_all,
           (long long)S->max_peak_hs, (long long)g_hs_peak_ref, (unsigned long long)S->hs_peer_ok,
-          (unsigned long long)S->hs_xcm_ok, (unsigned long long)S->identity_skipped, g_fl_len[0], g_fl_len[1],
+          (unsigned long long)S->hs_xcm_ok, (unsigned long long)S->identity_skipped,
+          (unsigned long long)S->bystander_checks, g_fl_len[0], g_fl_len[1],
           g_fl_len[2], g_fl_len[3], g_fl_len[4], g_fl_len[5], S->internal_err, S->internal_text);
     for (int i = 0; i < S->nsig; i++) {
         char e[420];
@@ -1924,7 +2124,7 @@ static void print_stats(uint64_t a, uint64_t b)
 /* child: set up, warm up, run [from,to) */
 static void child_main(uint64_t from, uint64_t to)
 {
-    process_setup();
+    setup_all();
     warmup();
     if (C.fam == FAM_HSMUT && !g_nfl_ref)
         internal("no reference flights");
@@ -2031,7 +2231,7 @@ int main(int argc, char **argv)
             return 2;
         }
         g_verbose = 0;
-        process_setup();
+        setup_all();
         warmup();
         g_verbose = 1;
         kase_print(g_spec, sizeof g_spec, &k);
@@ -2090,7 +2290,7 @@ int main(int argc, char **argv)
         pid_t pid = fork();
         if (pid == 0) {
             if (C.fam == FAM_HSMUT) {
-                process_setup();
+                setup_all();
                 warmup();
                 if (S->internal_err) {
                     out_f("{\"t\":\"broken\",\"text\":\"%s\"}\n", S->internal_text);
